@@ -8,6 +8,7 @@
 import ModVerif.Proofs.TieFnTile
 import ModVerif.Proofs.TileAuthHash
 import ModVerif.Proofs.TileAuthTile
+set_option linter.unusedSimpArgs false
 namespace ModVerif.TieFnTile
 open ModVerif ModVerif.GoRt ModVerif.GoRtTile
 
@@ -199,12 +200,19 @@ theorem HashFromTile_eq (fuel : Nat) (t : Tile.Tile) (data : Bytes) (x : Nat) (h
       shl_one_natCast, chk64_natCast hp, mbind_ok, mpure, m1, m2, m3, m4, Bool.or_false, Bool.false_or]
     by_cases hwide : tw > 2 ^ th
     · have hwide' : ((tw : Int) > ((2 ^ th : Nat) : Int)) := by omega
-      simp [hwide, hwide', hftOut, hftMsg, hftInvalid, m1, m2, m3, m4]
+      have hinvT : hftInvalid { h := th, l := tl, n := tn, w := tw } = true := by
+        unfold hftInvalid
+        simp only [m1, m2, m3, m4, Bool.or_false, Bool.false_or]
+        exact decide_eq_true hwide
+      simp only [hwide, hwide', decide_true, ↓reduceIte, hftOut, hftMsg, hinvT]
     · have hwide' : ¬ ((tw : Int) > ((2 ^ th : Nat) : Int)) := by omega
       have e32 : (tw : Int) * 32 = ((32 * tw : Nat) : Int) := by omega
       have hinvF : hftInvalid { h := th, l := tl, n := tn, w := tw } = false := by
-        simp [hftInvalid, m1, m2, m3, m4, hwide]
-      simp only [hwide, hwide', decide_false, Bool.false_eq_true, ↓reduceIte, e32, chk64_natCast (show 32 * tw < 2 ^ 63 by omega)]
+        unfold hftInvalid
+        simp only [m1, m2, m3, m4, Bool.or_false, Bool.false_or]
+        exact decide_eq_false hwide
+      simp only [hwide, hwide', decide_false, Bool.false_eq_true, ↓reduceIte, e32, chk64_natCast (show 32 * tw < 2 ^ 63 by omega),
+        mbind_ok]
       by_cases hshort : data.length / 32 < tw
       · have hshort' : (len data < ((32 * tw : Nat) : Int)) := by simp only [len, Int.ofNat_eq_natCast]; omega
         simp only [hshort, hshort', decide_true, ↓reduceIte, hftOut, hftMsg, hinvF, Bool.false_eq_true]
@@ -214,7 +222,7 @@ theorem HashFromTile_eq (fuel : Nat) (t : Tile.Tile) (data : Bytes) (x : Nat) (h
         have hts := TileAuth.ts_le th lv k (by omega)
         simp only [TileAuth.ts] at hts
         simp only [hshort, hshort', decide_false, Bool.false_eq_true, ↓reduceIte,
-          tileForIndex_eq fuel th x hx (by omega) (Or.inl (by omega)) hf, hcl, tfiOut, toGen, mbind_ok, bind, Except.bind]
+          tileForIndex_eq fuel th x hx (by omega) (Or.inl (by omega)) hf, hcl, tfiOut, toGen, bind, Except.bind]
         generalize hS : k % 2 ^ (th - lv % th) * 2 ^ (lv % th) = S at hts
         have hE : (k % 2 ^ (th - lv % th) + 1) * 2 ^ (lv % th) = S + 2 ^ (lv % th) := by
           rw [Nat.add_mul, Nat.one_mul, hS]
@@ -225,13 +233,8 @@ theorem HashFromTile_eq (fuel : Nat) (t : Tile.Tile) (data : Bytes) (x : Nat) (h
         by_cases hmis : tl ≠ L1 ∨ tn ≠ N1 ∨ tw < S + 2 ^ J
         · have hg2 : ((!decide ((tl : Int) = (L1 : Int)) || !decide ((tn : Int) = (N1 : Int)) ||
               decide ((tw : Int) < ((S + 2 ^ J : Nat) : Int))) = true) := by
-            rcases hmis with h | h | h
-            · have : ¬ ((tl : Int) = (L1 : Int)) := by omega
-              simp [this]
-            · have : ¬ ((tn : Int) = (N1 : Int)) := by omega
-              simp [this]
-            · have : ((tw : Int) < ((S + 2 ^ J : Nat) : Int)) := by omega
-              simp [this]
+            simp only [Bool.or_eq_true, Bool.not_eq_true', decide_eq_false_iff_not, decide_eq_true_eq]
+            omega
           have hm2 : (tl != L1 || tn != N1 || decide (tw < S + 2 ^ J)) = true := by
             rcases hmis with h | h | h <;> simp [h]
           simp only [hg2, ↓reduceIte, hm2, hftOut, hftMsg, hinvF, Bool.false_eq_true, hshort]
@@ -240,11 +243,10 @@ theorem HashFromTile_eq (fuel : Nat) (t : Tile.Tile) (data : Bytes) (x : Nat) (h
           have c3 : ¬ tw < S + 2 ^ J := by omega
           have hg2 : ((!decide ((tl : Int) = (L1 : Int)) || !decide ((tn : Int) = (N1 : Int)) ||
               decide ((tw : Int) < ((S + 2 ^ J : Nat) : Int))) = false) := by
-            have a1 : ((tl : Int) = (L1 : Int)) := by omega
-            have a2 : ((tn : Int) = (N1 : Int)) := by omega
-            have a3 : ¬ ((tw : Int) < ((S + 2 ^ J : Nat) : Int)) := by omega
-            simp [a1, a2, a3]
+            simp only [Bool.or_eq_false_iff, Bool.not_eq_false', decide_eq_true_eq, decide_eq_false_iff_not]
+            omega
           have hm2 : (tl != L1 || tn != N1 || decide (tw < S + 2 ^ J)) = false := by simp [c1, c2, c3]
+          have hpJ := Nat.two_pow_pos J
           have hslice := slice_natCast' (v := data) (a := 32 * S) (b := 32 * (S + 2 ^ J)) (by omega) (by omega)
           have hslen : ((data.take (32 * (S + 2 ^ J))).drop (32 * S)).length = 32 * 2 ^ J := by
             rw [List.length_drop, List.length_take]; omega
